@@ -46,6 +46,11 @@ def add_menu(level, targets):
         for t in targets:
             menu.append(('FK', {'to': t, 'null': True}, None))
         if targets:
+            # relations with a declared initial value (existing rows must
+            # point at row 1 of the target afterwards)
+            menu.append(('FK', {'to': targets[0]}, 1))
+            menu.append(('FK', {'to': targets[0], 'null': True}, 1))
+        if targets:
             menu.append(('M2M', {'to': targets[0]}, None))
     return menu
 
@@ -107,7 +112,8 @@ def meta_menu(model, level):
 
 
 def enabled(project, level='full', kinds=None, fresh_names=FRESH_FIELD_NAMES,
-            reuse_names=(), rename_models=('Zed',)):
+            reuse_names=(), rename_models=('Zed',), rename_pk=False,
+            add_types=None):
     """Yield (label, mutation) for every alphabet mutation enabled in
     `project`."""
     out = []
@@ -137,11 +143,22 @@ def enabled(project, level='full', kinds=None, fresh_names=FRESH_FIELD_NAMES,
                             break
                 for name in cands:
                     for ftype, attrs, initial in add_menu(level, targets):
+                        if add_types is not None and ftype not in add_types:
+                            continue
                         out.append((label, ['AddField', mname, name, ftype,
                                             dict(attrs), initial]))
             for f in m['fields']:
                 fname = f['name']
                 if f['attrs'].get('primary_key'):
+                    # an explicit primary key may be renamed (relations to
+                    # the model must follow), nothing else
+                    if want('RenameField') and rename_pk and \
+                            not refs.get(fname):
+                        for new in fresh_names:
+                            if new not in have:
+                                out.append((label, ['RenameField', mname,
+                                                    fname, new, {}]))
+                                break
                     continue
                 if want('DeleteField') and not (refs.get(fname, set()) -
                                                 {'unique_together'}):
